@@ -50,7 +50,8 @@ ASSUMPTIONS = [
     "Epoch.utc2local and the local= keyword are excluded (clock dependent)",
     "instant clause (generated, beyond the stated grid): any time of day to 1 us, eight ways of "
     "entering it (among them an Epoch as the date, this very object included, and datetime); "
-    "instants closer than 0.5 ms to an inserted leap second are moved to 0.5 ms before it (the "
+    "instants closer than 0.5 ms to an inserted leap second or to 1972-01-01 0h (where the offset "
+    "starts) are moved to 0.5 ms before it (the "
     "float JDE resolves 0.04 ms and the tuple returned has no name for 23:59:60.x)",
 ]
 
@@ -434,9 +435,11 @@ def body_instant(case):
     y, m, d, sod, form = case["year"], case["month"], case["day"], case["sod"], case["form"]
     ov = case.get("override")
     labels = ["form_" + form]
-    if sod > 86399.9995 and d == cal.month_len(y, m) and leap.precedes_leap_second(y, m):
+    if sod > 86399.9995 and d == cal.month_len(y, m) and (leap.precedes_leap_second(y, m)
+                                                           or (y, m) == (1971, 12)):
         # the float JDE resolves 0.04 ms: an instant closer than that to an inserted leap second
-        # may be stored inside it, where a (year, month, day) tuple has no name for it
+        # may be stored inside it, where a (year, month, day) tuple has no name for it (likewise
+        # the last 0.04 ms of 1971, which may be stored as 1972-01-01 0h, where the offset starts)
         sod = 86399.9995
         labels.append("kept_0.5ms_clear_of_inserted_leap_second")
     kw = {"utc": True} if ov is None else {"leap_seconds": ov}
